@@ -214,6 +214,7 @@ def oracle(ctx, rnd, els):
                             clause="the symbolic impedance expression of a circuit with values substituted evaluates to the numeric impedance")
     tlm_configs(ctx, rnd, els, big)
     limits(ctx, rnd, els, big)
+    limit_vectors(ctx, rnd, big)
 
 
 def cfl(z):
@@ -344,6 +345,40 @@ def limits(ctx, rnd, els, big):
             if np.isfinite(near) and abs(near - zl) > 1e-3 * max(abs(zl), abs(near), 1e-30):
                 ctx.add_failing("limit-not-continuous-extension", {"cdc": e.to_string(17), "f": f0}, observed=str(zl), expected=str(near),
                                 clause="a reported finite limit at 0 Hz or infinite frequency is the continuous extension of the finite-frequency values")
+
+
+def limit_vectors(ctx, rnd, big):
+    """Frequency vectors that mix 0 Hz, infinite and finite frequencies in any order: every entry of the result must
+    be what a call with that single frequency reports (the limits are computed on a separate code path)."""
+    from pyimpspec import parse_cdc
+    tmpls = ["R{R=%(a)r}(R{R=%(b)r}C{C=%(c)r})", "R{R=%(a)r}(R{R=%(b)r}Q{Y=%(c)r,n=0.8})(R{R=%(a)r}C{C=%(c)r})", "(R{R=%(a)r}[R{R=%(b)r}L{L=%(c)r}])", "R{R=%(a)r}Zarc{R=%(b)r,tau=%(c)r,n=0.8}"]
+    for j in range(len(tmpls) if big else 2):
+        c = parse_cdc(tmpls[(j + rnd.randrange(len(tmpls))) % len(tmpls)] % dict(a=circgen.round6(10 ** rnd.uniform(0, 2)), b=circgen.round6(10 ** rnd.uniform(0, 3)), c=circgen.round6(10 ** rnd.uniform(-6, -3))))
+        single = {}
+        try:
+            with np.errstate(all="ignore"), TimeLimit(60):
+                for f0 in (0.0, math.inf, 1.0, 1e3):
+                    single[f0] = complex(c.get_impedances(np.array([f0]))[0])
+        except (Exception, TimeoutError) as x:  # noqa
+            ctx.count("oracle:limit-vector:skipped:" + type(x).__name__)
+            continue
+        orders = [[math.inf, 1e3, 1.0, 0.0], [0.0, math.inf], [math.inf, 0.0], [0.0, math.inf, 1.0, 0.0], [math.inf, 1.0, 0.0, math.inf]]
+        extra = [0.0, math.inf, 1.0, 1e3, 0.0, math.inf]
+        rnd.shuffle(extra)
+        orders.append(extra)
+        for fs in orders:
+            ctx.count("oracle:limit-vector")
+            ctx.note_case(("limit-vector", c.to_string(6), tuple(fs)))
+            try:
+                with np.errstate(all="ignore"), TimeLimit(60):
+                    z = c.get_impedances(np.array(fs))
+            except (Exception, TimeoutError) as x:  # noqa
+                ctx.add_failing("limit-vector-raises", {"cdc": c.serialize(17), "f": [str(v) for v in fs]}, observed=type(x).__name__, expected="values", clause="a reported finite limit at 0 Hz or infinite frequency")
+                continue
+            exp = [single[v] for v in fs]
+            if any(relerr(complex(a), b) > 1e-9 for a, b in zip(z, exp)):
+                ctx.add_failing("limit-vector-vs-single", {"cdc": c.serialize(17), "f": [str(v) for v in fs]}, observed=str([complex(v) for v in z]), expected=str(exp),
+                                clause="a reported finite limit at 0 Hz or infinite frequency is the continuous extension of the finite-frequency values (whatever the order of the frequencies)")
 
 
 def search(ctx):
